@@ -2,18 +2,32 @@
 //! `local_channel::mpsc` (C16) driven through the line protocol, with counting wakers.
 //!
 //! ```text
-//! case <name> counter <cap>     acquire h | drop g | avail h w | clone h | total h
-//! case <name> lw                reg w | wake | take
-//! case <name> chan              send i x | clone i | dropS i | close i | poll w | rsender | dropR
+//! case <name> counter <cap> [probe]   acquire h | drop g | avail h w | clone h | total h | dropH h | dbg h | dbgG g
+//! case <name> lw [default]            reg w | wake | take | dbg
+//! case <name> chan                    send i x | ssend i x | clone i | dropS i | close i | poll w | recv w | recvNew w |
+//!                                     recvDrop | rsender | dropR | sready i w | sflush i w | sclose i w | dbgS i | dbgR
 //! ```
 //! Every observation ends in ` woke=<ids>`: which of the counting wakers `0..NW` were woken by this
 //! operation (ascending, with multiplicity; `-` = none).
+//!
+//! Every public entry point of the three crates is reached by some operation:
+//! * `Counter::{new, get, available, total, clone, drop, fmt::Debug}`, `CounterGuard::{drop, fmt::Debug}`;
+//! * `LocalWaker::{new, default, register, wake, take, fmt::Debug}`;
+//! * `mpsc::channel`, `Sender::{send, close, clone, drop, fmt::Debug}`, `<Sender as Sink>::{poll_ready,
+//!   start_send, poll_flush, poll_close}`, `Receiver::{recv, sender, drop, fmt::Debug}`,
+//!   `<Receiver as Stream>::poll_next`, `SendError::{into_inner, 0, fmt::Debug, fmt::Display}`.
+//!
+//! `recv w` polls the `recv()` future by hand with the counting waker `w`: the pending future if there
+//! is one, a fresh `rx.recv()` otherwise; `recvNew w` drops a pending future first (cancellation) and
+//! polls a fresh one; `recvDrop` drops a pending future.  Every other receiver operation (`poll`,
+//! `rsender`, `dropR`, `dbgR`) drops a pending future first — the borrow checker demands it of any user.
 //!
 //! The T3 oracles below are written against the *property statements* with their own bookkeeping
 //! (number of live guards, FIFO queue of accepted messages, "receiver returned Pending with waker w
 //! and has not been woken since"); they do not look at the Lean model.
 use std::{
     collections::{HashMap, VecDeque},
+    future::Future,
     io::Write,
     pin::Pin,
     sync::{
@@ -25,6 +39,7 @@ use std::{
 
 use actix_utils::counter::{Counter, CounterGuard};
 use futures_core::Stream;
+use futures_sink::Sink;
 use local_channel::mpsc;
 use local_waker::LocalWaker;
 use vh::*;
@@ -50,12 +65,18 @@ struct Wakers {
     cws: Vec<Arc<CW>>,
     wakers: Vec<Waker>,
     seen: Vec<usize>,
+    /// the oracle's own waker (index `NW`): used where a correct implementation registers nothing
+    probe_cw: Arc<CW>,
+    probe: Waker,
+    probe_seen: usize,
 }
 impl Wakers {
     fn new() -> Self {
         let cws: Vec<Arc<CW>> = (0..NW).map(|_| Arc::new(CW(AtomicUsize::new(0)))).collect();
         let wakers = cws.iter().map(|c| Waker::from(c.clone())).collect();
-        Wakers { cws, wakers, seen: vec![0; NW] }
+        let probe_cw = Arc::new(CW(AtomicUsize::new(0)));
+        let probe = Waker::from(probe_cw.clone());
+        Wakers { cws, wakers, seen: vec![0; NW], probe_cw, probe, probe_seen: 0 }
     }
     /// wakers woken since the last call (ascending ids, with multiplicity)
     fn delta(&mut self) -> Vec<usize> {
@@ -68,6 +89,13 @@ impl Wakers {
             self.seen[i] = now;
         }
         v
+    }
+    /// number of times the oracle's probe waker was woken since the last call
+    fn probe_delta(&mut self) -> usize {
+        let now = self.probe_cw.0.load(Ordering::SeqCst);
+        let d = now - self.probe_seen;
+        self.probe_seen = now;
+        d
     }
     fn id_of(&self, w: &Waker) -> Option<usize> {
         (0..NW).find(|&i| w.data() == Arc::as_ptr(&self.cws[i]) as *const ())
@@ -94,8 +122,11 @@ fn num(s: &str) -> Option<usize> {
 // engines (real objects + the oracle's own bookkeeping)
 // ------------------------------------------------------------------------------------------------
 struct CounterEng {
-    handles: Vec<Counter>,
+    handles: Vec<Option<Counter>>,
     guards: Vec<Option<CounterGuard>>,
+    /// after every operation also ask `available` where a correct implementation does not change
+    /// its state by being asked (see `counter_invariants`)
+    probe: bool,
     // oracle
     cap: usize,
     live: usize,
@@ -107,9 +138,15 @@ struct LwEng {
     outstanding: Option<usize>,
 }
 
+type RecvFut = Pin<Box<dyn Future<Output = Option<u32>>>>;
+
 struct ChanEng {
     senders: Vec<Option<mpsc::Sender<u32>>>,
-    rx: Option<mpsc::Receiver<u32>>,
+    /// a pending `recv()` future.  It borrows `*rx` mutably: it is dropped before `rx` is used in
+    /// any other way (`drop_fut`), and declared before `rx` so that it is dropped first.
+    fut: Option<RecvFut>,
+    /// boxed: the receiver keeps its address while the engine moves
+    rx: Option<Box<mpsc::Receiver<u32>>>,
     // oracle
     queue: VecDeque<u32>,
     closed: bool,
@@ -118,6 +155,18 @@ struct ChanEng {
 impl ChanEng {
     fn n_senders(&self) -> usize {
         self.senders.iter().filter(|s| s.is_some()).count()
+    }
+    fn drop_fut(&mut self) {
+        self.fut = None;
+    }
+    /// a fresh `rx.recv()` future
+    fn new_fut(&mut self) -> Option<RecvFut> {
+        self.fut = None;
+        let rx: *mut mpsc::Receiver<u32> = &mut **self.rx.as_mut()?;
+        // SAFETY: the receiver is boxed and owned by this engine; the future is stored in `self.fut`
+        // and dropped (`drop_fut`) before the receiver is touched through any other path or dropped.
+        let fut = unsafe { (*rx).recv() };
+        Some(Box::pin(fut))
     }
 }
 
@@ -145,6 +194,58 @@ impl T3 {
     }
 }
 
+/// Drop the objects of the finished case.  Every destructor runs on its own inside `catch`: a
+/// destructor of the code under test that panics (e.g. a count that underflows) is an oracle failure
+/// of the finished case, and must not take the harness down.
+fn teardown(eng: &mut Eng, wk: &mut Wakers, rep: &mut Report, t3: &mut T3) {
+    match std::mem::replace(eng, Eng::Idle) {
+        Eng::Idle => {}
+        Eng::Counter(mut e) => {
+            // newest first, as a scope would
+            for g in (0..e.guards.len()).rev() {
+                if let Some(guard) = e.guards[g].take() {
+                    if let Err(m) = catch(move || drop(guard)) {
+                        t3.fail(rep, "C17", format!("dropping guard {g} at the end of the case panicked: {m}"));
+                    } else {
+                        e.live -= 1;
+                    }
+                    counter_totals(&e, "the end-of-case drop of a guard", rep, t3);
+                }
+            }
+            for h in (0..e.handles.len()).rev() {
+                if let Some(c) = e.handles[h].take() {
+                    if let Err(m) = catch(move || drop(c)) {
+                        t3.fail(rep, "C17", format!("dropping Counter handle {h} at the end of the case panicked: {m}"));
+                    }
+                }
+            }
+        }
+        Eng::Lw(e) => {
+            if let Err(m) = catch(move || drop(e)) {
+                t3.fail(rep, "C17", format!("dropping the LocalWaker panicked: {m}"));
+            }
+        }
+        Eng::Chan(mut e) => {
+            e.drop_fut();
+            for i in 0..e.senders.len() {
+                if let Some(s) = e.senders[i].take() {
+                    if let Err(m) = catch(move || drop(s)) {
+                        t3.fail(rep, "C16", format!("dropping sender {i} at the end of the case panicked: {m}"));
+                    }
+                }
+            }
+            if let Some(rx) = e.rx.take() {
+                if let Err(m) = catch(move || drop(rx)) {
+                    t3.fail(rep, "C16", format!("dropping the receiver at the end of the case panicked: {m}"));
+                }
+            }
+        }
+    }
+    // wakes caused by the teardown belong to nobody
+    wk.delta();
+    wk.probe_delta();
+}
+
 fn run(a: &Args) {
     silence_panics();
     let mut rep = Report::new(&a.output);
@@ -154,39 +255,42 @@ fn run(a: &Args) {
     for line in in_lines(&a.input) {
         let ws: Vec<&str> = line.split_whitespace().collect();
         let real: String = if ws.first() == Some(&"case") {
-            // drop the old objects first; wakes caused by that belong to nobody
-            eng = Eng::Idle;
-            wk.delta();
-            match ws.as_slice() {
-                ["case", _, "counter", cap] => match num(cap) {
-                    Some(cap) => {
-                        eng = Eng::Counter(CounterEng {
-                            handles: vec![Counter::new(cap)],
-                            guards: vec![],
-                            cap,
-                            live: 0,
-                            pend: None,
-                        });
-                        "ok".into()
-                    }
-                    None => "bad-op".into(),
-                },
-                ["case", _, "lw"] => {
-                    eng = Eng::Lw(LwEng { lw: LocalWaker::new(), outstanding: None });
-                    "ok".into()
-                }
+            teardown(&mut eng, &mut wk, &mut rep, &mut t3);
+            let counter = |cap: &str, probe: bool| -> Option<Eng> {
+                let cap = num(cap)?;
+                Some(Eng::Counter(CounterEng {
+                    handles: vec![Some(Counter::new(cap))],
+                    guards: vec![],
+                    probe,
+                    cap,
+                    live: 0,
+                    pend: None,
+                }))
+            };
+            let made: Option<Eng> = match ws.as_slice() {
+                ["case", _, "counter", cap] => counter(cap, false),
+                ["case", _, "counter", cap, "probe"] => counter(cap, true),
+                ["case", _, "lw"] => Some(Eng::Lw(LwEng { lw: LocalWaker::new(), outstanding: None })),
+                ["case", _, "lw", "default"] => Some(Eng::Lw(LwEng { lw: LocalWaker::default(), outstanding: None })),
                 ["case", _, "chan"] => {
                     let (tx, rx) = mpsc::channel::<u32>();
-                    eng = Eng::Chan(ChanEng {
+                    Some(Eng::Chan(ChanEng {
                         senders: vec![Some(tx)],
-                        rx: Some(rx),
+                        fut: None,
+                        rx: Some(Box::new(rx)),
                         queue: VecDeque::new(),
                         closed: false,
                         parked: None,
-                    });
+                    }))
+                }
+                _ => None,
+            };
+            match made {
+                Some(e) => {
+                    eng = e;
                     "ok".into()
                 }
-                _ => "bad-op".into(),
+                None => "bad-op".into(),
             }
         } else {
             let r = catch(|| match &mut eng {
@@ -207,8 +311,9 @@ fn run(a: &Args) {
             }
         };
         rep.obs(&line, &real);
+        rep_flush_some(&mut rep);
     }
-    drop(eng);
+    teardown(&mut eng, &mut wk, &mut rep, &mut t3);
     let mut supp: Vec<(String, u64)> = t3.counts.iter().filter(|(_, n)| **n > T3_CAP).map(|(k, n)| (k.clone(), *n - T3_CAP)).collect();
     supp.sort();
     for (k, n) in supp {
@@ -217,13 +322,70 @@ fn run(a: &Args) {
     rep.finish();
 }
 
+/// the report is buffered (1 MiB); nothing to do per line — kept as a hook so that a future abort
+/// can be narrowed down by flushing more often
+fn rep_flush_some(_rep: &mut Report) {}
+
 // ---- C17: Counter --------------------------------------------------------------------------------
+
+/// `total` is a plain read: demand after every operation, through every live handle, that it is the
+/// number of live guards ("total n-count is shared across all clones")
+fn counter_totals(e: &CounterEng, after: &str, rep: &mut Report, t3: &mut T3) {
+    for (h, c) in e.handles.iter().enumerate() {
+        if let Some(c) = c {
+            let n = c.total();
+            if n != e.live {
+                t3.fail(
+                    rep,
+                    "C17",
+                    format!("after {after}: total() through handle {h} is {n} with {} live guards (capacity {})", e.live, e.cap),
+                );
+            }
+        }
+    }
+}
+
+/// `available ⇔ live < capacity` after every operation, asked where asking does not change the
+/// state of a correct implementation: below the capacity nothing is registered (the oracle's own
+/// probe waker is passed), at/above the capacity re-registering the waker that is pending anyway
+/// changes nothing.  (At/above the capacity with nobody pending the question would park somebody:
+/// not asked.)
+fn counter_probe(e: &CounterEng, after: &str, wk: &mut Wakers, rep: &mut Report, t3: &mut T3) {
+    if !e.probe {
+        return;
+    }
+    for (h, c) in e.handles.iter().enumerate() {
+        let Some(c) = c else { continue };
+        if e.live < e.cap {
+            let cx = Context::from_waker(&wk.probe);
+            if !c.available(&cx) {
+                t3.fail(
+                    rep,
+                    "C17",
+                    format!("after {after}: available through handle {h} answered false with {} live guards and capacity {}", e.live, e.cap),
+                );
+            }
+        } else if let Some(w) = e.pend {
+            let cx = Context::from_waker(&wk.wakers[w]);
+            if c.available(&cx) {
+                t3.fail(
+                    rep,
+                    "C17",
+                    format!("after {after}: available through handle {h} answered true with {} live guards and capacity {}", e.live, e.cap),
+                );
+            }
+        }
+    }
+}
+
 fn counter_op(e: &mut CounterEng, ws: &[&str], wk: &mut Wakers, rep: &mut Report, t3: &mut T3) -> Option<String> {
     let mut expect_wake: Option<usize> = None;
+    let has = |e: &CounterEng, h: usize| h < e.handles.len() && e.handles[h].is_some();
     let head: String = match ws {
         ["acquire", h] => {
-            let h = num(h).filter(|h| *h < e.handles.len())?;
-            let g = e.handles[h].get();
+            let h = num(h).filter(|h| has(e, *h))?;
+            // `get` never refuses: the counter gates through `available` only
+            let g = e.handles[h].as_ref().unwrap().get();
             e.guards.push(Some(g));
             e.live += 1;
             format!("guard {}", e.guards.len() - 1)
@@ -231,20 +393,20 @@ fn counter_op(e: &mut CounterEng, ws: &[&str], wk: &mut Wakers, rep: &mut Report
         ["drop", g] => {
             let g = num(g).filter(|g| *g < e.guards.len() && e.guards[*g].is_some())?;
             let guard = e.guards[g].take();
-            drop(guard);
             // property: the drop that brings the count below the capacity wakes the task most
             // recently answered "unavailable"
             if e.live == e.cap {
                 expect_wake = e.pend.take();
             }
             e.live -= 1;
+            drop(guard);
             "dropped".into()
         }
         ["avail", h, w] => {
-            let h = num(h).filter(|h| *h < e.handles.len())?;
+            let h = num(h).filter(|h| has(e, *h))?;
             let w = num(w).filter(|w| *w < NW)?;
             let cx = Context::from_waker(&wk.wakers[w]);
-            let b = e.handles[h].available(&cx);
+            let b = e.handles[h].as_ref().unwrap().available(&cx);
             let want = e.live < e.cap;
             if b != want {
                 t3.fail(rep, "C17", format!("available answered {b} with {} live guards and capacity {}", e.live, e.cap));
@@ -255,18 +417,42 @@ fn counter_op(e: &mut CounterEng, ws: &[&str], wk: &mut Wakers, rep: &mut Report
             format!("avail {}", b as u8)
         }
         ["clone", h] => {
-            let h = num(h).filter(|h| *h < e.handles.len())?;
-            let c = e.handles[h].clone();
-            e.handles.push(c);
+            let h = num(h).filter(|h| has(e, *h))?;
+            let c = e.handles[h].as_ref().unwrap().clone();
+            e.handles.push(Some(c));
             format!("handle {}", e.handles.len() - 1)
         }
         ["total", h] => {
-            let h = num(h).filter(|h| *h < e.handles.len())?;
-            let n = e.handles[h].total();
+            let h = num(h).filter(|h| has(e, *h))?;
+            let n = e.handles[h].as_ref().unwrap().total();
             if n != e.live {
                 t3.fail(rep, "C17", format!("total() is {n} with {} live guards", e.live));
             }
             format!("total {n}")
+        }
+        ["dropH", h] => {
+            let h = num(h).filter(|h| has(e, *h))?;
+            let c = e.handles[h].take();
+            drop(c);
+            "dropped".into()
+        }
+        ["dbg", h] => {
+            let h = num(h).filter(|h| has(e, *h))?;
+            let s = format!("{:?}", e.handles[h].as_ref().unwrap());
+            let want = format!("Counter(Counter {{ count: {}, capacity: {}, task: LocalWaker }})", e.live, e.cap);
+            if s != want {
+                t3.fail(rep, "C17", format!("Debug of the counter is `{s}` with {} live guards and capacity {}", e.live, e.cap));
+            }
+            format!("dbg {s}")
+        }
+        ["dbgG", g] => {
+            let g = num(g).filter(|g| *g < e.guards.len() && e.guards[*g].is_some())?;
+            let s = format!("{:?}", e.guards[g].as_ref().unwrap());
+            let want = format!("CounterGuard(Counter {{ count: {}, capacity: {}, task: LocalWaker }})", e.live, e.cap);
+            if s != want {
+                t3.fail(rep, "C17", format!("Debug of a guard is `{s}` with {} live guards and capacity {}", e.live, e.cap));
+            }
+            format!("dbg {s}")
         }
         _ => return None,
     };
@@ -281,6 +467,14 @@ fn counter_op(e: &mut CounterEng, ws: &[&str], wk: &mut Wakers, rep: &mut Report
                 ws[0], e.live, e.cap, woke, want
             ),
         );
+    }
+    let after = format!("`{}`", ws[0]);
+    counter_totals(e, &after, rep, t3);
+    counter_probe(e, &after, wk, rep, t3);
+    let stray = wk.delta();
+    let stray_probe = wk.probe_delta();
+    if !stray.is_empty() || stray_probe != 0 {
+        t3.fail(rep, "C17", format!("asking available/total after `{}` woke {stray:?} (and the oracle's own waker {stray_probe} times)", ws[0]));
     }
     Some(head + &woke_str(&woke))
 }
@@ -317,6 +511,13 @@ fn lw_op(e: &mut LwEng, ws: &[&str], wk: &mut Wakers, rep: &mut Report, t3: &mut
             }
             format!("took {shown}")
         }
+        ["dbg"] => {
+            let s = format!("{:?}", e.lw);
+            if s != "LocalWaker" {
+                t3.fail(rep, "C17", format!("Debug of the LocalWaker is `{s}`"));
+            }
+            format!("dbg {s}")
+        }
         _ => return None,
     };
     let woke = wk.delta();
@@ -328,28 +529,105 @@ fn lw_op(e: &mut LwEng, ws: &[&str], wk: &mut Wakers, rep: &mut Report, t3: &mut
 }
 
 // ---- C16: local_channel::mpsc --------------------------------------------------------------------
+
+/// what the property demands of one answer of the receiver, whichever way it was asked
+fn check_received(e: &mut ChanEng, r: &Poll<Option<u32>>, how: &str, rep: &mut Report, t3: &mut T3) -> String {
+    let shown = match r {
+        Poll::Ready(Some(x)) => format!("ready {x}"),
+        Poll::Ready(None) => "ready none".into(),
+        Poll::Pending => "pending".into(),
+    };
+    match e.queue.pop_front() {
+        Some(front) => {
+            if *r != Poll::Ready(Some(front)) {
+                t3.fail(
+                    rep,
+                    "C16",
+                    format!(
+                        "{how} returned `{shown}` but message {front} is the next in send order ({} more buffered, closed={}, {} senders)",
+                        e.queue.len(),
+                        e.closed,
+                        e.n_senders()
+                    ),
+                );
+                // keep the bookkeeping in step with what was actually handed out
+                if !matches!(r, Poll::Ready(Some(_))) {
+                    e.queue.push_front(front);
+                }
+            }
+        }
+        None => {
+            if e.closed || e.n_senders() == 0 {
+                if *r != Poll::Ready(None) {
+                    t3.fail(
+                        rep,
+                        "C16",
+                        format!(
+                            "{how} returned `{shown}` on a drained channel that is closed={} with {} senders: the property demands `ready none`",
+                            e.closed,
+                            e.n_senders()
+                        ),
+                    );
+                }
+            } else if *r != Poll::Pending {
+                t3.fail(rep, "C16", format!("{how} returned `{shown}` on an empty open channel with {} senders", e.n_senders()));
+            }
+        }
+    }
+    shown
+}
+
+fn chan_debug(who: &str, e: &ChanEng) -> String {
+    format!(
+        "{who} {{ shared: RefCell {{ value: Shared {{ buffer: {:?}, blocked_recv: LocalWaker, has_receiver: {} }} }} }}",
+        e.queue,
+        e.rx.is_some() && !e.closed
+    )
+}
+
 fn chan_op(e: &mut ChanEng, ws: &[&str], wk: &mut Wakers, rep: &mut Report, t3: &mut T3) -> Option<String> {
     // Some(reason) when the property demands that the parked receiver is woken by this operation
     let mut must_wake: Option<&'static str> = None;
     let alive = |e: &ChanEng, i: usize| i < e.senders.len() && e.senders[i].is_some();
     let head: String = match ws {
-        ["send", i, x] => {
+        ["send", i, x] | ["ssend", i, x] => {
             let i = num(i).filter(|i| alive(e, *i))?;
             let x = num(x)? as u32;
-            let ok = e.senders[i].as_ref().unwrap().send(x).is_ok();
+            let how = ws[0];
+            let res = if how == "send" {
+                e.senders[i].as_ref().unwrap().send(x)
+            } else {
+                Pin::new(e.senders[i].as_mut().unwrap()).start_send(x)
+            };
+            let ok = res.is_ok();
             let want_ok = e.rx.is_some() && !e.closed;
             if ok != want_ok {
                 t3.fail(
                     rep,
                     "C16",
-                    format!("send returned ok={ok} with receiver dropped={} closed={}", e.rx.is_none(), e.closed),
+                    format!("{how} returned ok={ok} with receiver dropped={} closed={}", e.rx.is_none(), e.closed),
                 );
             }
-            if want_ok {
+            if ok {
                 e.queue.push_back(x);
+            }
+            if want_ok {
                 must_wake = Some("a send");
             }
-            if ok { "ok".into() } else { "err".into() }
+            match res {
+                Ok(()) => "ok".into(),
+                Err(err) => {
+                    let (dbg, disp) = (format!("{err:?}"), format!("{err}"));
+                    if dbg != "SendError(\"...\")" || disp != "send failed because receiver is gone" {
+                        t3.fail(rep, "C16", format!("SendError formats as `{dbg}` / `{disp}`"));
+                    }
+                    let back = err.into_inner();
+                    if back != x {
+                        t3.fail(rep, "C16", format!("SendError::into_inner returned {back}, the rejected message was {x}"));
+                    }
+                    format!("err {back}")
+                }
+            }
         }
         ["clone", i] => {
             let i = num(i).filter(|i| alive(e, *i))?;
@@ -373,70 +651,126 @@ fn chan_op(e: &mut ChanEng, ws: &[&str], wk: &mut Wakers, rep: &mut Report, t3: 
             must_wake = Some("close");
             "closed".into()
         }
-        ["poll", w] => {
+        [op @ ("sready" | "sflush" | "sclose"), i, w] => {
+            let i = num(i).filter(|i| alive(e, *i))?;
             let w = num(w).filter(|w| *w < NW)?;
-            let rx = e.rx.as_mut()?;
             let mut cx = Context::from_waker(&wk.wakers[w]);
-            let r = Pin::new(rx).poll_next(&mut cx);
-            let shown = match &r {
-                Poll::Ready(Some(x)) => format!("ready {x}"),
-                Poll::Ready(None) => "ready none".into(),
-                Poll::Pending => "pending".into(),
+            let s = Pin::new(e.senders[i].as_mut().unwrap());
+            let r = match *op {
+                "sready" => s.poll_ready(&mut cx),
+                "sflush" => s.poll_flush(&mut cx),
+                _ => s.poll_close(&mut cx),
             };
-            match e.queue.pop_front() {
-                Some(front) => {
-                    if r != Poll::Ready(Some(front)) {
-                        t3.fail(rep, "C16", format!("poll returned `{shown}` but message {front} is the next in send order"));
-                    }
+            match r {
+                Poll::Ready(Ok(())) => "ready ok".into(),
+                Poll::Ready(Err(_)) => {
+                    t3.fail(rep, "C16", format!("Sink::{op} of the unbounded sender returned an error"));
+                    "ready err".into()
                 }
-                None => {
-                    if e.closed || e.n_senders() == 0 {
-                        if r != Poll::Ready(None) {
-                            t3.fail(
-                                rep,
-                                "C16",
-                                format!(
-                                    "poll returned `{shown}` on a drained channel that is closed={} with {} senders: the property demands `ready none`",
-                                    e.closed,
-                                    e.n_senders()
-                                ),
-                            );
-                        }
-                    } else if r != Poll::Pending {
-                        t3.fail(rep, "C16", format!("poll returned `{shown}` on an empty open channel with {} senders", e.n_senders()));
-                    }
+                Poll::Pending => {
+                    t3.fail(rep, "C16", format!("Sink::{op} of the unbounded sender returned Pending"));
+                    "pending".into()
                 }
             }
+        }
+        ["poll", w] => {
+            let w = num(w).filter(|w| *w < NW)?;
+            e.rx.as_ref()?;
+            e.drop_fut();
+            let mut cx = Context::from_waker(&wk.wakers[w]);
+            let r = Pin::new(&mut **e.rx.as_mut().unwrap()).poll_next(&mut cx);
+            let shown = check_received(e, &r, "poll_next", rep, t3);
             if r == Poll::Pending {
                 e.parked = Some(w);
             }
             shown
         }
+        [op @ ("recv" | "recvNew"), w] => {
+            let w = num(w).filter(|w| *w < NW)?;
+            e.rx.as_ref()?;
+            let (mut fut, how) = match e.fut.take() {
+                Some(f) if *op == "recv" => (f, "a pending recv() future polled again"),
+                Some(f) => {
+                    drop(f);
+                    (e.new_fut()?, "a fresh recv() future (after dropping a pending one)")
+                }
+                None => (e.new_fut()?, "a fresh recv() future"),
+            };
+            let mut cx = Context::from_waker(&wk.wakers[w]);
+            let r = fut.as_mut().poll(&mut cx);
+            let shown = check_received(e, &r, how, rep, t3);
+            if r == Poll::Pending {
+                e.parked = Some(w);
+                e.fut = Some(fut);
+            }
+            shown
+        }
+        ["recvDrop"] => {
+            e.rx.as_ref()?;
+            e.drop_fut();
+            "fdropped".into()
+        }
         ["rsender"] => {
+            e.rx.as_ref()?;
+            e.drop_fut();
             let s = e.rx.as_ref()?.sender();
             e.senders.push(Some(s));
             format!("sender {}", e.senders.len() - 1)
         }
         ["dropR"] => {
+            e.rx.as_ref()?;
+            e.drop_fut();
             let rx = e.rx.take()?;
             drop(rx);
             e.queue.clear();
             e.parked = None;
             "dropped".into()
         }
+        ["dbgS", i] => {
+            let i = num(i).filter(|i| alive(e, *i))?;
+            let s = format!("{:?}", e.senders[i].as_ref().unwrap());
+            if s != chan_debug("Sender", e) {
+                t3.fail(rep, "C16", format!("Debug of a sender is `{s}`; accepted and not yet received: {:?}, closed={}", e.queue, e.closed));
+            }
+            format!("dbg {s}")
+        }
+        ["dbgR"] => {
+            e.rx.as_ref()?;
+            e.drop_fut();
+            let s = format!("{:?}", e.rx.as_ref().unwrap());
+            if s != chan_debug("Receiver", e) {
+                t3.fail(rep, "C16", format!("Debug of the receiver is `{s}`; accepted and not yet received: {:?}, closed={}", e.queue, e.closed));
+            }
+            format!("dbg {s}")
+        }
         _ => return None,
     };
     let woke = wk.delta();
-    if let (Some(why), Some(w)) = (must_wake, e.parked) {
-        if e.rx.is_some() {
-            let n = woke.iter().filter(|x| **x == w).count();
-            if n != 1 {
-                t3.fail(
+    if e.rx.is_some() {
+        // while the receiver lives: exactly the parked receiver is woken, exactly once, exactly by
+        // the events the property names — and nobody else, ever
+        let want: Vec<usize> = match (must_wake, e.parked) {
+            (Some(_), Some(w)) => vec![w],
+            _ => vec![],
+        };
+        if woke != want {
+            match (must_wake, e.parked) {
+                (Some(why), Some(w)) => t3.fail(
                     rep,
                     "C16",
-                    format!("receiver parked with waker {w} (poll returned Pending) was woken {n} times by {why}; woke={woke:?}"),
-                );
+                    format!(
+                        "receiver parked with waker {w} (it returned Pending) was woken {} times by {why}; woke={woke:?}",
+                        woke.iter().filter(|x| **x == w).count()
+                    ),
+                ),
+                _ => t3.fail(
+                    rep,
+                    "C16",
+                    format!("`{}` woke {woke:?} with the receiver parked={:?}: the property names no reason to wake anybody here", ws[0], e.parked),
+                ),
             }
+        }
+        if must_wake.is_some() {
             e.parked = None;
         }
     }
@@ -452,6 +786,91 @@ fn chan_op(e: &mut ChanEng, ws: &[&str], wk: &mut Wakers, rep: &mut Report, t3: 
 // generators
 // ------------------------------------------------------------------------------------------------
 
+fn emit(w: &mut dyn Write, header: &str, ops: &[String]) {
+    writeln!(w, "{header}").unwrap();
+    for o in ops {
+        writeln!(w, "{o}").unwrap();
+    }
+}
+
+/// C17 directed scenarios, emitted first: histories that go above the capacity (`get` is never
+/// refused), the latest of several parked wakers, clones and dropped handles, `Debug`.
+fn gen_c17_scenarios(w: &mut dyn Write, n: &mut u64) {
+    for probe in [true, false] {
+        let tag = if probe { " probe" } else { "" };
+        for cap in 0..=3usize {
+            for over in 1..=2usize {
+                // fill up to cap+over, then release newest-first / oldest-first, asking after every step
+                // `ask_often`: ask after every step; otherwise only once, at the top: the one parked
+                // there must be woken by the drop that takes the count from cap to cap - 1, no earlier
+                for (newest_first, ask_often) in [(true, true), (false, true), (true, false), (false, false)] {
+                    let total = cap + over;
+                    let mut ops: Vec<String> = vec![];
+                    for k in 0..total {
+                        ops.push("acquire 0".into());
+                        if (ask_often && k + 1 >= cap) || k + 1 == total {
+                            ops.push(format!("avail 0 {}", k % NW));
+                        }
+                    }
+                    ops.push("total 0".into());
+                    ops.push("dbg 0".into());
+                    let order: Vec<usize> = if newest_first { (0..total).rev().collect() } else { (0..total).collect() };
+                    for (k, g) in order.iter().enumerate() {
+                        ops.push(format!("drop {g}"));
+                        ops.push("total 0".into());
+                        if ask_often {
+                            ops.push(format!("avail 0 {}", (k + 1) % NW));
+                        }
+                    }
+                    ops.push("avail 0 0".into());
+                    *n += 1;
+                    emit(
+                        w,
+                        &format!("case sc-over-{cap}-{over}-{}{}{} counter {cap}{tag}", newest_first as u8, ask_often as u8, if probe { "p" } else { "" }),
+                        &ops,
+                    );
+                }
+            }
+            // two tasks answered "unavailable": the drop wakes the later one, once
+            let mut ops: Vec<String> = (0..cap).map(|_| "acquire 0".to_string()).collect();
+            ops.extend(["avail 0 0", "avail 0 1"].map(String::from));
+            if cap > 0 {
+                ops.extend(["drop 0", "avail 0 2", "acquire 0", "avail 0 3", "avail 0 2"].map(String::from));
+                ops.push(format!("drop {cap}"));
+                if cap > 1 {
+                    ops.push(format!("drop {}", cap - 1));
+                }
+                ops.push("avail 0 0".into());
+            }
+            *n += 1;
+            emit(w, &format!("case sc-latest-{cap}{} counter {cap}{tag}", if probe { "p" } else { "" }), &ops);
+            // clones share the count; a dropped handle changes nothing
+            let mut ops: Vec<String> = vec!["clone 0".into(), "clone 1".into()];
+            for k in 0..=cap {
+                ops.push(format!("acquire {}", k % 3));
+                ops.push(format!("total {}", (k + 1) % 3));
+            }
+            ops.extend(["avail 2 1", "avail 1 2", "dropH 1", "avail 0 3", "dbg 2", "dbgG 0", "dropH 0", "drop 0", "total 2", "avail 2 0", "clone 2", "dropH 2", "total 3", "drop 1", "avail 3 1"].map(String::from));
+            *n += 1;
+            emit(w, &format!("case sc-clones-{cap}{} counter {cap}{tag}", if probe { "p" } else { "" }), &ops);
+        }
+    }
+    for how in ["lw", "lw default"] {
+        for (k, ops) in [
+            vec!["reg 0", "reg 1", "wake", "wake"],
+            vec!["reg 0", "reg 1", "take", "take", "wake"],
+            vec!["reg 2", "reg 2", "wake", "reg 3", "dbg", "wake"],
+            vec!["dbg", "wake", "take", "reg 1", "dbg", "reg 0", "reg 1", "wake"],
+        ]
+        .iter()
+        .enumerate()
+        {
+            *n += 1;
+            emit(w, &format!("case sc-lw-{k}{} {how}", if how == "lw" { "" } else { "d" }), &ops.iter().map(|s| s.to_string()).collect::<Vec<_>>());
+        }
+    }
+}
+
 /// C17 exhaustive: every sequence of exactly `len` applicable operations over
 /// {acquire, drop g, avail with waker 0..wakers, clone (at most `max_clones`)}; the newest handle
 /// acquires, handle 0 is asked, `total` is read through the newest handle at the end.
@@ -466,7 +885,6 @@ struct CxCfg {
     wakers: usize,
 }
 fn gen_counter_exhaustive(w: &mut dyn Write, cfg: CxCfg, n: &mut u64) {
-    let CxCfg { cap, len, max_clones, all_guards, wakers } = cfg;
     struct St {
         ops: Vec<String>,
         live: Vec<usize>,
@@ -521,16 +939,95 @@ fn gen_counter_exhaustive(w: &mut dyn Write, cfg: CxCfg, n: &mut u64) {
         }
     }
     let mut st = St { ops: vec![], live: vec![], next_guard: 0, handles: 1 };
-    let _ = (cap, len, max_clones, all_guards, wakers);
     rec(w, &mut st, cfg, n);
 }
 
-fn gen_lw_exhaustive(w: &mut dyn Write, len: usize, n: &mut u64) {
-    let alpha = ["reg 0", "reg 1", "wake", "take"];
+/// C17 exhaustive over the handle operations, with the after-every-operation probes switched on:
+/// every sequence of exactly `len` applicable operations over {acquire via the newest live handle,
+/// drop the oldest / newest live guard, avail via the oldest live handle with waker 0|1, clone the
+/// newest live handle (≤ 2 clones), dropH of the oldest live handle while two are alive, dbg, dbgG}.
+fn gen_counter_handles_exhaustive(w: &mut dyn Write, cap: usize, len: usize, n: &mut u64) {
+    struct St {
+        ops: Vec<String>,
+        live: Vec<usize>,
+        next_guard: usize,
+        handles: Vec<usize>,
+        next_handle: usize,
+    }
+    fn rec(w: &mut dyn Write, st: &mut St, cap: usize, len: usize, n: &mut u64) {
+        if st.ops.len() == len {
+            *n += 1;
+            writeln!(w, "case ch{}-{} counter {cap} probe", cap, *n).unwrap();
+            for o in &st.ops {
+                writeln!(w, "{o}").unwrap();
+            }
+            return;
+        }
+        let newest = *st.handles.last().unwrap();
+        let oldest = st.handles[0];
+        st.ops.push(format!("acquire {newest}"));
+        st.live.push(st.next_guard);
+        st.next_guard += 1;
+        rec(w, st, cap, len, n);
+        st.next_guard -= 1;
+        st.live.pop();
+        st.ops.pop();
+        let mut cands: Vec<usize> = vec![];
+        if !st.live.is_empty() {
+            cands.push(0);
+            if st.live.len() > 1 {
+                cands.push(st.live.len() - 1);
+            }
+        }
+        for k in cands {
+            let g = st.live.remove(k);
+            st.ops.push(format!("drop {g}"));
+            rec(w, st, cap, len, n);
+            st.ops.pop();
+            st.live.insert(k, g);
+        }
+        for wk in 0..2 {
+            st.ops.push(format!("avail {oldest} {wk}"));
+            rec(w, st, cap, len, n);
+            st.ops.pop();
+        }
+        if st.next_handle < 3 {
+            st.ops.push(format!("clone {newest}"));
+            st.handles.push(st.next_handle);
+            st.next_handle += 1;
+            rec(w, st, cap, len, n);
+            st.next_handle -= 1;
+            st.handles.pop();
+            st.ops.pop();
+        }
+        if st.handles.len() >= 2 {
+            let h = st.handles.remove(0);
+            st.ops.push(format!("dropH {h}"));
+            rec(w, st, cap, len, n);
+            st.ops.pop();
+            st.handles.insert(0, h);
+        }
+        // Debug once per history at most (it changes nothing)
+        if !st.ops.iter().any(|o| o.starts_with("dbg")) {
+            st.ops.push(format!("dbg {newest}"));
+            rec(w, st, cap, len, n);
+            st.ops.pop();
+            if let Some(g) = st.live.first().copied() {
+                st.ops.push(format!("dbgG {g}"));
+                rec(w, st, cap, len, n);
+                st.ops.pop();
+            }
+        }
+    }
+    let mut st = St { ops: vec![], live: vec![], next_guard: 0, handles: vec![0], next_handle: 1 };
+    rec(w, &mut st, cap, len, n);
+}
+
+fn gen_lw_exhaustive(w: &mut dyn Write, alpha: &[&str], how: &str, len: usize, n: &mut u64) {
     let total = alpha.len().pow(len as u32);
     for mut k in 0..total {
         *n += 1;
-        writeln!(w, "case lw-{} lw", *n).unwrap();
+        writeln!(w, "case lw-{} {how}", *n).unwrap();
         for _ in 0..len {
             writeln!(w, "{}", alpha[k % alpha.len()]).unwrap();
             k /= alpha.len();
@@ -538,13 +1035,19 @@ fn gen_lw_exhaustive(w: &mut dyn Write, len: usize, n: &mut u64) {
     }
 }
 
-const JUNK: [&str; 10] = ["frob", "acquire", "drop x", "avail 0 9", "poll 7", "send 0", "close -1", "take 3", "reg 4", "total 0 0"];
+const JUNK: [&str; 16] = [
+    "frob", "acquire", "drop x", "avail 0 9", "poll 7", "send 0", "close -1", "take 3", "reg 4", "total 0 0", "recv", "recv 4", "sready 0", "dbg x",
+    "dropH", "ssend 0",
+];
 
 fn gen_counter_random(w: &mut dyn Write, rng: &mut Rng, cases: usize, max_len: usize) {
     for c in 0..cases {
         let cap = rng.below(6);
-        writeln!(w, "case cr-{c} counter {cap}").unwrap();
-        let (mut live, mut next, mut handles): (Vec<usize>, usize, usize) = (vec![], 0, 1);
+        writeln!(w, "case cr-{c} counter {cap}{}", if rng.chance(1, 2) { " probe" } else { "" }).unwrap();
+        let (mut live, mut next): (Vec<usize>, usize) = (vec![], 0);
+        let (mut handles, mut next_h): (Vec<usize>, usize) = (vec![0], 1);
+        // per case: how far above the capacity this history likes to go
+        let over = 1 + rng.below(4);
         for _ in 0..rng.range(4, max_len) {
             // bias towards hovering around the capacity, where the behaviour changes
             let r = rng.below(100);
@@ -553,25 +1056,48 @@ fn gen_counter_random(w: &mut dyn Write, rng: &mut Rng, cases: usize, max_len: u
             } else if r < 6 {
                 // stale / unknown ids and handles: rejected identically by both sides
                 let dead: Vec<usize> = (0..next + 2).filter(|g| !live.contains(g)).collect();
-                if rng.chance(1, 2) {
-                    writeln!(w, "drop {}", rng.pick(&dead)).unwrap();
-                } else {
-                    writeln!(w, "acquire {}", handles + rng.below(2)).unwrap();
+                let dead_h: Vec<usize> = (0..next_h + 2).filter(|h| !handles.contains(h)).collect();
+                match rng.below(3) {
+                    0 => writeln!(w, "drop {}", rng.pick(&dead)).unwrap(),
+                    1 => writeln!(w, "acquire {}", rng.pick(&dead_h)).unwrap(),
+                    _ => writeln!(w, "total {}", rng.pick(&dead_h)).unwrap(),
                 }
-            } else if r < 36 && live.len() < cap + 3 {
-                writeln!(w, "acquire {}", rng.below(handles)).unwrap();
+            } else if handles.is_empty() {
+                // only the guards are left
+                if !live.is_empty() {
+                    let k = rng.below(live.len());
+                    if rng.chance(1, 5) {
+                        writeln!(w, "dbgG {}", live[k]).unwrap();
+                    } else {
+                        writeln!(w, "drop {}", live.remove(k)).unwrap();
+                    }
+                } else {
+                    writeln!(w, "total 0").unwrap();
+                }
+            } else if r < 34 && live.len() < cap + over {
+                writeln!(w, "acquire {}", rng.pick(&handles)).unwrap();
                 live.push(next);
                 next += 1;
-            } else if r < 62 && !live.is_empty() {
+            } else if r < 58 && !live.is_empty() {
                 let k = rng.below(live.len());
                 writeln!(w, "drop {}", live.remove(k)).unwrap();
-            } else if r < 88 {
-                writeln!(w, "avail {} {}", rng.below(handles), rng.below(NW)).unwrap();
-            } else if r < 93 && handles < 4 {
-                writeln!(w, "clone {}", rng.below(handles)).unwrap();
-                handles += 1;
+            } else if r < 82 {
+                writeln!(w, "avail {} {}", rng.pick(&handles), rng.below(NW)).unwrap();
+            } else if r < 87 && next_h < 5 {
+                writeln!(w, "clone {}", rng.pick(&handles)).unwrap();
+                handles.push(next_h);
+                next_h += 1;
+            } else if r < 90 && (handles.len() > 1 || rng.chance(1, 6)) {
+                let k = rng.below(handles.len());
+                writeln!(w, "dropH {}", handles.remove(k)).unwrap();
+            } else if r < 93 {
+                if !live.is_empty() && rng.chance(1, 2) {
+                    writeln!(w, "dbgG {}", rng.pick(&live)).unwrap();
+                } else {
+                    writeln!(w, "dbg {}", rng.pick(&handles)).unwrap();
+                }
             } else {
-                writeln!(w, "total {}", rng.below(handles)).unwrap();
+                writeln!(w, "total {}", rng.pick(&handles)).unwrap();
             }
         }
     }
@@ -579,6 +1105,8 @@ fn gen_counter_random(w: &mut dyn Write, rng: &mut Rng, cases: usize, max_len: u
 
 fn gen_c17(a: &Args, w: &mut dyn Write) {
     let thorough = a.tier == "thorough";
+    let mut sc = 0u64;
+    gen_c17_scenarios(w, &mut sc);
     let mut n = 0u64;
     for cap in 0..=3 {
         // (1) every live guard droppable, one clone allowed, two wakers
@@ -586,13 +1114,71 @@ fn gen_c17(a: &Args, w: &mut dyn Write) {
         // (2) longer, no clone, oldest/newest guard only once three are alive
         gen_counter_exhaustive(w, CxCfg { cap, len: if thorough { 9 } else { 7 }, max_clones: 0, all_guards: false, wakers: 2 }, &mut n);
     }
-    // (3) LocalWaker: all register/wake/take sequences with 2 wakers
+    // (2b) handle operations (clone / dropH / Debug), probes on
+    let mut nh = 0u64;
+    for cap in 0..=2 {
+        gen_counter_handles_exhaustive(w, cap, if thorough { 7 } else { 6 }, &mut nh);
+    }
+    // (3) LocalWaker: all register/wake/take sequences with 2 wakers; with Debug and `default()` shorter
     let mut m = 0u64;
-    gen_lw_exhaustive(w, if thorough { 8 } else { 6 }, &mut m);
-    // (4) random long histories, capacities 0..5, 4 wakers, clones, junk lines
+    gen_lw_exhaustive(w, &["reg 0", "reg 1", "wake", "take"], "lw", if thorough { 8 } else { 6 }, &mut m);
+    gen_lw_exhaustive(w, &["reg 0", "reg 1", "wake", "take", "dbg"], "lw default", if thorough { 7 } else { 5 }, &mut m);
+    // (4) random long histories, capacities 0..5, 4 wakers, clones, dropped handles, junk lines
     let mut rng = Rng::new(a.seed ^ 0x17);
     gen_counter_random(w, &mut rng, if thorough { 20000 } else { 1500 }, 40);
-    eprintln!("C17 gen: {n} exhaustive counter cases, {m} LocalWaker cases");
+    eprintln!("C17 gen: {sc} scenarios, {n} exhaustive counter cases, {nh} exhaustive handle cases, {m} LocalWaker cases");
+}
+
+/// C16 directed scenarios, emitted first: a channel with `buffered` messages is ended in every way
+/// (`close` with a sender alive, drop of the last sender, both) and then asked `buffered + 2` times
+/// through every mixture of {poll_next, recv() polled, fresh recv() after dropping}: all receive paths
+/// must drain in order and then yield `None`.  Plus park/wake through every receive path.
+fn gen_c16_scenarios(w: &mut dyn Write, n: &mut u64) {
+    let paths = ["poll", "recv", "recvNew"];
+    for buffered in 0..=3usize {
+        for ending in 0..4usize {
+            let asks = buffered + 2;
+            let total = paths.len().pow(asks as u32);
+            for mut k in 0..total {
+                let mut ops: Vec<String> = vec![];
+                if ending == 3 {
+                    // parked first (through the first path of this pattern), then filled and ended
+                    ops.push(format!("{} 3", paths[k % paths.len()]));
+                }
+                for m in 0..buffered {
+                    ops.push(format!("{} 0 {}", if m % 2 == 0 { "send" } else { "ssend" }, m + 1));
+                }
+                match ending {
+                    0 => ops.push("close 0".into()),
+                    1 => ops.push("dropS 0".into()),
+                    2 => ops.extend(["clone 0", "close 1", "dropS 1"].map(String::from)),
+                    _ => ops.push("close 0".into()),
+                }
+                for j in 0..asks {
+                    ops.push(format!("{} {}", paths[k % paths.len()], j % NW));
+                    k /= paths.len();
+                }
+                if ending != 1 {
+                    ops.push(format!("send 0 {}", buffered + 1));
+                }
+                *n += 1;
+                emit(w, &format!("case sc-end-{buffered}-{ending}-{} chan", *n), &ops);
+            }
+        }
+    }
+    // park through every path, wake through every event, ask again through every path
+    for (pi, park) in ["poll 1", "recv 1", "recvNew 1", "recv 1\nrecvDrop", "recv 2\nrecv 1", "recv 2\nrecvNew 1", "recv 2\npoll 1", "poll 2\nrecv 1"].iter().enumerate() {
+        for (ei, event) in ["send 0 7", "ssend 0 7", "close 0", "dropS 0", "clone 0\ndropS 0\ndropS 1", "rsender\ndropS 0\nsend 1 7", "sready 0 2\nsflush 0 2\nsclose 0 2\nsend 0 7"].iter().enumerate() {
+            for (ai, again) in ["poll 0", "recv 0", "recvNew 0"].iter().enumerate() {
+                let mut ops: Vec<String> = vec![];
+                for part in [park, event, again, again, &"dbgR"] {
+                    ops.extend(part.split('\n').map(String::from));
+                }
+                *n += 1;
+                emit(w, &format!("case sc-park-{pi}-{ei}-{ai} chan"), &ops);
+            }
+        }
+    }
 }
 
 /// C16 exhaustive: every sequence of exactly `len` applicable operations with at most
@@ -602,12 +1188,19 @@ fn gen_c17(a: &Args, w: &mut dyn Write) {
 /// `sym` (deeper tier): senders are interchangeable clones of one `Rc`, so `send` goes through the
 /// oldest live sender only and `dropS` drops the oldest or the newest one; `wakers` = number of
 /// distinct wakers used by `poll`.
+/// `extra`: further letters that need the receiver alive (`recv 0`, `recvNew 1`, `recvDrop`, `dbgR`);
+/// `sender_extra`: further letters that go through the oldest live sender (`ssend`, `sready`, …; `{i}` =
+/// the sender, `{x}` = a fresh message number).
 #[derive(Clone, Copy)]
 struct ChCfg {
     len: usize,
     max_senders: usize,
     sym: bool,
     wakers: usize,
+    rsender: bool,
+    extra: &'static [&'static str],
+    sender_extra: &'static [&'static str],
+    tag: &'static str,
 }
 fn gen_chan_exhaustive(w: &mut dyn Write, cfg: ChCfg, n: &mut u64) {
     struct St {
@@ -618,10 +1211,10 @@ fn gen_chan_exhaustive(w: &mut dyn Write, cfg: ChCfg, n: &mut u64) {
         msg: usize,
     }
     fn rec(w: &mut dyn Write, st: &mut St, cfg: ChCfg, n: &mut u64) {
-        let ChCfg { len, max_senders, sym, wakers } = cfg;
+        let ChCfg { len, max_senders, sym, wakers, rsender, extra, sender_extra, tag } = cfg;
         if st.ops.len() == len {
             *n += 1;
-            writeln!(w, "case ch-{} chan", *n).unwrap();
+            writeln!(w, "case {tag}-{} chan", *n).unwrap();
             for o in &st.ops {
                 writeln!(w, "{o}").unwrap();
             }
@@ -660,6 +1253,18 @@ fn gen_chan_exhaustive(w: &mut dyn Write, cfg: ChCfg, n: &mut u64) {
                 st.alive.pop();
                 st.ops.pop();
             }
+            for t in sender_extra {
+                let fresh = t.contains("{x}");
+                if fresh {
+                    st.msg += 1;
+                }
+                st.ops.push(t.replace("{i}", &i.to_string()).replace("{x}", &st.msg.to_string()));
+                rec(w, st, cfg, n);
+                st.ops.pop();
+                if fresh {
+                    st.msg -= 1;
+                }
+            }
         }
         if st.rx {
             dead_end = false;
@@ -668,7 +1273,12 @@ fn gen_chan_exhaustive(w: &mut dyn Write, cfg: ChCfg, n: &mut u64) {
                 rec(w, st, cfg, n);
                 st.ops.pop();
             }
-            if alive.len() < max_senders {
+            for t in extra {
+                st.ops.push(t.to_string());
+                rec(w, st, cfg, n);
+                st.ops.pop();
+            }
+            if rsender && alive.len() < max_senders {
                 st.ops.push("rsender".into());
                 st.alive.push(st.next_sender);
                 st.next_sender += 1;
@@ -686,7 +1296,7 @@ fn gen_chan_exhaustive(w: &mut dyn Write, cfg: ChCfg, n: &mut u64) {
         if dead_end && !st.ops.is_empty() {
             // nothing is applicable any more (no sender, no receiver): emit the shorter sequence
             *n += 1;
-            writeln!(w, "case ch-{} chan", *n).unwrap();
+            writeln!(w, "case {tag}-{} chan", *n).unwrap();
             for o in &st.ops {
                 writeln!(w, "{o}").unwrap();
             }
@@ -700,37 +1310,59 @@ fn gen_chan_random(w: &mut dyn Write, rng: &mut Rng, cases: usize, max_len: usiz
     for c in 0..cases {
         writeln!(w, "case chr-{c} chan").unwrap();
         let (mut alive, mut next, mut rx, mut msg): (Vec<usize>, usize, bool, usize) = (vec![0], 1, true, 0);
-        // per case: how eager this history is to close / drop things
+        // per case: how eager this history is to close / drop things, and which receive path it prefers
         let closey = rng.below(12);
+        let recvy = rng.below(4); // 0: poll_next only … 3: mostly recv()
+        let recv_line = |rng: &mut Rng, wakers: usize| -> String {
+            let w = rng.below(wakers);
+            if rng.below(3) < recvy {
+                match rng.below(8) {
+                    0 => "recvDrop".to_string(),
+                    1 | 2 => format!("recvNew {w}"),
+                    _ => format!("recv {w}"),
+                }
+            } else {
+                format!("poll {w}")
+            }
+        };
         for _ in 0..rng.range(4, max_len) {
             let r = rng.below(100);
             if r < 3 {
                 writeln!(w, "{}", rng.pick(&JUNK)).unwrap();
             } else if r < 5 {
                 writeln!(w, "send {} 0", next + rng.below(2)).unwrap(); // unknown sender
-            } else if r < 35 && !alive.is_empty() {
+            } else if r < 33 && !alive.is_empty() {
                 msg += 1;
-                writeln!(w, "send {} {msg}", rng.pick(&alive)).unwrap();
-            } else if r < 65 {
-                writeln!(w, "poll {}", rng.below(NW)).unwrap(); // bad-op once the receiver is gone
-            } else if r < 73 && !alive.is_empty() && alive.len() < 4 {
+                writeln!(w, "{} {} {msg}", if rng.chance(1, 4) { "ssend" } else { "send" }, rng.pick(&alive)).unwrap();
+            } else if r < 62 {
+                writeln!(w, "{}", recv_line(rng, NW)).unwrap(); // bad-op once the receiver is gone
+            } else if r < 70 && !alive.is_empty() && alive.len() < 4 {
                 writeln!(w, "clone {}", rng.pick(&alive)).unwrap();
                 alive.push(next);
                 next += 1;
-            } else if r < 85 && !alive.is_empty() {
+            } else if r < 81 && !alive.is_empty() {
                 let k = rng.below(alive.len());
                 writeln!(w, "dropS {}", alive.remove(k)).unwrap();
-            } else if r < 91 && rx && alive.len() < 4 {
+            } else if r < 86 && rx && alive.len() < 4 {
                 writeln!(w, "rsender").unwrap();
                 alive.push(next);
                 next += 1;
+            } else if r < 89 && !alive.is_empty() {
+                let i = *rng.pick(&alive);
+                match rng.below(5) {
+                    0 => writeln!(w, "sready {i} {}", rng.below(NW)).unwrap(),
+                    1 => writeln!(w, "sflush {i} {}", rng.below(NW)).unwrap(),
+                    2 => writeln!(w, "sclose {i} {}", rng.below(NW)).unwrap(),
+                    3 => writeln!(w, "dbgS {i}").unwrap(),
+                    _ => writeln!(w, "dbgR").unwrap(),
+                }
             } else if r < 91 + closey / 2 && !alive.is_empty() {
                 writeln!(w, "close {}", rng.pick(&alive)).unwrap();
             } else if r < 92 + closey && rx && rng.chance(1, 3) {
                 writeln!(w, "dropR").unwrap();
                 rx = false;
             } else {
-                writeln!(w, "poll {}", rng.below(2)).unwrap();
+                writeln!(w, "{}", recv_line(rng, 2)).unwrap();
             }
         }
     }
@@ -738,14 +1370,50 @@ fn gen_chan_random(w: &mut dyn Write, rng: &mut Rng, cases: usize, max_len: usiz
 
 fn gen_c16(a: &Args, w: &mut dyn Write) {
     let thorough = a.tier == "thorough";
+    let mut sc = 0u64;
+    gen_c16_scenarios(w, &mut sc);
     let mut n = 0u64;
-    gen_chan_exhaustive(w, ChCfg { len: 6, max_senders: 3, sym: false, wakers: 2 }, &mut n);
+    let core = ChCfg { len: 6, max_senders: 3, sym: false, wakers: 2, rsender: true, extra: &[], sender_extra: &[], tag: "ch" };
+    // (1) the core alphabet
+    gen_chan_exhaustive(w, core, &mut n);
     if thorough {
-        gen_chan_exhaustive(w, ChCfg { len: 7, max_senders: 3, sym: true, wakers: 2 }, &mut n);
+        gen_chan_exhaustive(w, ChCfg { len: 7, sym: true, ..core }, &mut n);
     }
+    // (1b) every receive path: poll_next, a recv() future polled (again), a fresh one after a drop, a dropped one
+    let mut nr = 0u64;
+    gen_chan_exhaustive(
+        w,
+        ChCfg {
+            len: if thorough { 6 } else { 5 },
+            max_senders: 2,
+            sym: true,
+            wakers: 1,
+            rsender: false,
+            extra: &["recv 0", "recv 1", "recvNew 1", "recvDrop"],
+            sender_extra: &[],
+            tag: "chrv",
+        },
+        &mut nr,
+    );
+    // (1c) every send path and the quiet entry points: Sink::{poll_ready, start_send, poll_flush, poll_close}, Debug
+    let mut ns = 0u64;
+    gen_chan_exhaustive(
+        w,
+        ChCfg {
+            len: if thorough { 5 } else { 4 },
+            max_senders: 2,
+            sym: true,
+            wakers: 1,
+            rsender: false,
+            extra: &["recv 1", "dbgR"],
+            sender_extra: &["ssend {i} {x}", "sready {i} 1", "sflush {i} 1", "sclose {i} 1", "dbgS {i}"],
+            tag: "chsk",
+        },
+        &mut ns,
+    );
     let mut rng = Rng::new(a.seed ^ 0x16);
     gen_chan_random(w, &mut rng, if thorough { 30000 } else { 2000 }, 40);
-    eprintln!("C16 gen: {n} exhaustive channel cases");
+    eprintln!("C16 gen: {sc} scenarios, {n} exhaustive core cases, {nr} exhaustive receive-path cases, {ns} exhaustive sink/quiet cases");
 }
 
 fn gen(a: &Args) {
